@@ -46,8 +46,12 @@ def main():
     from . import gen as genpkg
     summary = {}
     for m in sorted(pkgutil.iter_modules(genpkg.__path__), key=lambda x: x.name):
-        mod = importlib.import_module("harness.gen." + m.name)
-        files = mod.generate()
+        try:
+            mod = importlib.import_module("harness.gen." + m.name)
+            files = mod.generate()
+        except Exception as e:  # fail closed, but only for the properties that depend on this generator's file
+            summary.setdefault("__errors__", {})[m.name] = "%s: %s" % (type(e).__name__, e)
+            continue
         for fn, text in files.items():
             assert fn.endswith("_gen.v")
             path = os.path.join(GEN_DIR, fn)
